@@ -316,7 +316,15 @@ def output_image(outcome: dict[str, Any], spec: dict[str, Any]) -> tuple[ipsref.
 def run_single(case: dict[str, Any], stats: Stats) -> list[Violation]:
     if case.get("insert") is not None:
         f0 = case["insert"]["slot"]["file"]
-        if f0 != "main.s" and f0 not in progen.live_includes(progen.Prog.from_record(case["prog"])):
+        base_prog = progen.Prog.from_record(case["prog"])
+        sl = case["insert"]["slot"]
+        now = [x for x in progen.iter_slots(base_prog) if x["file"] == sl["file"] and [tuple(y) for y in x["path"]] == [tuple(y) for y in sl["path"]] and x["pos"] == sl["pos"]]
+        if ERROR_CLASSES[case["insert"]["class"]]["scope"] == "asm" and (not now or not now[0]["assembled"]):
+            # the statement sits where nothing is assembled any more (e.g. in a macro only an included file
+            # applied, and the '.include' is gone): an old replay file written by a minimiser step
+            stats.bump("no_verdict(inserted statement unreachable)")
+            return []
+        if f0 != "main.s" and f0 not in progen.live_includes(base_prog):
             # the file holding the inserted statement is not included any more (an old replay file written
             # by a minimiser step that dropped the '.include'): the statement is never assembled
             stats.bump("no_verdict(inserted statement unreachable)")
